@@ -1118,7 +1118,9 @@ func child(batch int, seed int64, tier, outDir string) {
 				vv.Verify(ctx, desc, valid[f], notation.VerifierVerifyOptions{SignatureMediaType: f})
 				vv.Verify(ctx, desc, valid[f], notation.VerifierVerifyOptions{ArtifactReference: "r.io/a@" + desc.Digest.String()})
 				bv.VerifyBlob(ctx, func(alg digest.Algorithm) (ocispec.Descriptor, error) { return blobDesc, nil }, nil, vbo.BlobVerifierVerifyOptions)
-				bv.VerifyBlob(ctx, func(alg digest.Algorithm) (ocispec.Descriptor, error) { return ocispec.Descriptor{}, errors.New("no descriptor") }, valid[f+"|blob"], vbo.BlobVerifierVerifyOptions)
+				bv.VerifyBlob(ctx, func(alg digest.Algorithm) (ocispec.Descriptor, error) {
+					return ocispec.Descriptor{}, errors.New("no descriptor")
+				}, valid[f+"|blob"], vbo.BlobVerifierVerifyOptions)
 				bv.VerifyBlob(ctx, func(alg digest.Algorithm) (ocispec.Descriptor, error) { return blobDesc, nil }, valid[f+"|blob"], notation.BlobVerifierVerifyOptions{})
 			})
 		}
